@@ -366,12 +366,17 @@ class Gen:
             return mk("(declare-sort %s 0)" % self.sort, "S1" if self.logic == "QF_UF" else "S0")
         if kind == "bad-declare":
             return mk("(declare-fun yy () Foo)", "F90,0")
-        if kind == "bad-define-sort":
-            return mk("(define-fun fz ((a Foo)) Bool true)", "D190|0|1|0:1:")
-        if kind == "bad-define-body":
-            return mk("(define-fun fz () Bool (or %s zz))" % L, "D190|1|1|0:1:x")
-        if kind == "bad-define-mismatch":
-            return mk("(define-fun fz () Bool %s)" % nb, "D190|1|0|%d:0:" % self.tid(nb))
+        if kind in ("bad-define-sort", "bad-define-body", "bad-define-mismatch"):
+            # a function name of the pool that is free now (the valid script may define it later)
+            k = self.fresh_fun()
+            if k is None:
+                return None
+            fid = 100 + k
+            if kind == "bad-define-sort":
+                return mk("(define-fun f%d ((a Foo)) Bool true)" % k, "D%d|0|1|0:1:" % fid)
+            if kind == "bad-define-body":
+                return mk("(define-fun f%d () Bool (or %s zz))" % (k, L), "D%d|1|1|0:1:x" % fid)
+            return mk("(define-fun f%d () Bool %s)" % (k, nb), "D%d|1|0|%d:0:" % (fid, self.tid(nb)))
         if kind == "dup-define":
             lf = sorted(self.live_funs())
             if not lf:
